@@ -176,6 +176,23 @@ def drive(ctx, mon, tier, only_case=None):
     sz = tier_sizes(tier)
 
     def body(rng, ex, case):
+        if case == 0:
+            import itertools
+            pieces = ['a', 'b ', '\x1b[1m', '\x1b[31m', '\x1b[m', '\x1b[38;5;1m', '\x1b[22;39m', '\x1b[2J', '\x1b[1;34;4m', '\x1b[0;3m']
+            depth = 4 if tier == 'thorough' else 3
+            nsh = ctx.extra.get('nshards', 1)
+            k = 0
+            n_in = 0
+            for d in range(1, depth + 1):
+                for combo in itertools.product(pieces, repeat=d):
+                    k += 1
+                    if k % nsh != ctx.shard:
+                        continue
+                    n_in += 1
+                    (L.AnsiString if k % 3 else L.AnsiStr)(''.join(combo))
+            ctx.extra['n_small_scope_inputs'] = n_in
+            ctx.extra['small_scope'] = 'exhaustive over concatenations of up to %d pieces from %r' % (depth, pieces)
+            return
         r = rng.random()
         if r < 0.75:
             s = gen_ansi_input(rng, sz['maxlen'])
